@@ -428,7 +428,7 @@ static void addUnit(const std::string & name, int minTier, Cfg cfg, int dq, int 
 	Unit u; u.name = name; u.minTier = minTier;
 	u.run = [=](Ctx & ctx, UnitReport & rep, int tier) {
 		Harness<A, Heter> h(ctx, cfg);
-		BfsOptions o; o.maxDepth = tier ? dt : dq; o.innerBudget = tier ? bt : bq;
+		BfsOptions o; o.keyIncludesLastOp = true; o.maxDepth = tier ? dt : dq; o.innerBudget = tier ? bt : bq;
 		Bfs b(ctx, o);
 		b.run([&](Bfs & bb) { h.body(bb); }, [&]() { h.after(); });
 		fillBfsReport(rep, b.res);
